@@ -151,6 +151,17 @@ class Problem:
     b = np.abs(a) + np.abs(self.a0)
     return float(0.5 * b @ (np.abs(self.M) @ b) + np.sum(self.D * (np.abs(self.J) @ b + np.abs(self.aref)) ** 2))
 
+  def resolvable(self, a, g, k=1e3):
+    """True if a descent step from a can lower the cost by more than k*eps*(magnitude of the cost terms): with curvature at
+    most M + J'DJ everywhere, the achievable decrease is at least 1/2 g'(M + J'DJ)^-1 g.  A solver that works with cost values
+    cannot be blamed for a residual gradient below this resolution."""
+    H = self.M + (self.J.T * self.D) @ self.J
+    try:
+      low = 0.5 * float(g @ np.linalg.solve(H, g))
+    except np.linalg.LinAlgError:
+      return False
+    return low > k * np.finfo(float).eps * self.cost_scale(a)
+
   def delta(self, g):
     """Certified M-norm distance to the optimum from a gradient: sqrt(g' M^-1 g)."""
     if self.Minv is None:
